@@ -35,7 +35,7 @@ fn build_block(blk: &Value, headers: &mut HashMap<u64, Vec<u8>>) -> Vec<u8> {
     let wits = jarr(&blk["wits"]);
     let aux = jarr(&blk["aux"]);
     let invalid: Vec<i64> = jarr(&blk["invalid"]).iter().map(jint).collect();
-    let has_invalid = invalid != vec![-1];
+    let has_invalid = blk["has_invalid"].as_bool().unwrap_or_else(|| die("has_invalid missing"));
     let mut e = minicbor::Encoder::new(Vec::new());
     e.array(2).unwrap().u64(tag).unwrap();
     e.array(if has_invalid { 5 } else { 4 }).unwrap();
@@ -162,7 +162,7 @@ fn block_event(seq: usize, src: &str, buf: &[u8], rb: &raw::RawBlock, blk: &Mult
     let s = |sp: &raw::Span| &buf[sp.0..sp.1];
     let bodies: Vec<u64> = rb.bodies.iter().map(|sp| ids.id(s(sp))).collect();
     let wits: Vec<u64> = rb.wits.iter().map(|sp| ids.id(s(sp))).collect();
-    let aux: Vec<Value> = rb.aux.iter().map(|(k, sp)| json!([k, ids.id(s(sp))])).collect();
+    let aux: Vec<Value> = rb.aux_order.iter().map(|k| json!([k, ids.id(s(&rb.aux[k]))])).collect();
     let txs: Vec<Value> = blk
         .txs()
         .iter()
@@ -182,7 +182,8 @@ fn block_event(seq: usize, src: &str, buf: &[u8], rb: &raw::RawBlock, blk: &Mult
 }
 
 /// A variant of a real Alonzo+ block: same header, bodies and witness sets, but a random invalid list
-/// (indices 0..=n, so one may be out of range) and the aux data re-keyed to random distinct indices.
+/// (any order, repeated / out-of-range indices) and the aux data re-keyed to random distinct indices in a
+/// random wire order.
 fn variant(buf: &[u8], rb: &raw::RawBlock, rng: &mut Rng) -> Vec<u8> {
     let n = rb.bodies.len() as u64;
     let mut e = minicbor::Encoder::new(Vec::new());
@@ -191,22 +192,44 @@ fn variant(buf: &[u8], rb: &raw::RawBlock, rng: &mut Rng) -> Vec<u8> {
     w.extend_from_slice(&buf[rb.header.0..rb.header.1]);
     w.extend_from_slice(&buf[rb.bodies_arr.0..rb.bodies_arr.1]);
     w.extend_from_slice(&buf[rb.wits_arr.0..rb.wits_arr.1]);
+    // aux data re-keyed to random distinct indices (one may be out of range, some far out), written in a
+    // random wire order (the map is not ordered by the CDDL)
     let mut keys: Vec<u64> = (0..=n).collect();
+    if rng.chance(1, 3) {
+        keys.push(n + 1 + rng.below(1000));
+    }
     rng.shuffle(&mut keys);
     let mut vals: Vec<&raw::Span> = rb.aux.values().collect();
-    if vals.is_empty() && !rb.bodies.is_empty() {
-        // no aux data in this block: nothing to re-key
-    }
     let keep = if vals.is_empty() { 0 } else { rng.range(0, vals.len().min(keys.len()) as u64) as usize };
     rng.shuffle(&mut vals);
     let mut entries: Vec<(u64, &raw::Span)> = keys.into_iter().zip(vals.into_iter()).take(keep).collect();
-    entries.sort();
+    match rng.below(3) {
+        0 => entries.sort(),
+        1 => {
+            entries.sort();
+            entries.reverse()
+        }
+        _ => {} // shuffled
+    }
     e.map(entries.len() as u64).unwrap();
     for (k, sp) in entries {
         e.u64(k).unwrap();
         e.writer_mut().extend_from_slice(&buf[sp.0..sp.1]);
     }
-    let invalid: Vec<u64> = (0..=n).filter(|_| rng.chance(1, 3)).collect();
+    // invalid list: any order, possibly repeated and out-of-range indices (only membership matters)
+    let mut invalid: Vec<u64> = (0..=n).filter(|_| rng.chance(1, 3)).collect();
+    if !invalid.is_empty() && rng.chance(1, 3) {
+        let d = *rng.pick(&invalid);
+        invalid.push(d);
+    }
+    if rng.chance(1, 4) {
+        invalid.push(n + 1 + rng.below(100_000));
+    }
+    match rng.below(4) {
+        0 => {} // ascending (+ extras at the end)
+        1 => invalid.reverse(),
+        _ => rng.shuffle(&mut invalid),
+    }
     e.array(invalid.len() as u64).unwrap();
     for i in invalid {
         e.u64(i).unwrap();
